@@ -753,4 +753,376 @@ theorem isoApply_eq (iso : Iso F) (x y : F) :
     · simp only [div_eq_mul_inv]; ring
 end iso
 
+section wb
+variable {F : Type} [Field F] [DecidableEq F] {X : FieldX F}
+
+/-- the image of a point of `E' : y² = x³ + a'x + b'` away from the poles lies on `E : y² = x³ + ax + b` -/
+def IsoOnCurve (iso : Iso F) (a' b' a b : F) : Prop :=
+  ∀ x y : F, y * y = x * x * x + a' * x + b' → ∀ x2 y2 : F, Rfc.isoMap iso (x, y) = some (x2, y2) →
+    y2 * y2 = x2 * x2 * x2 + a * x2 + b
+
+/-- the polynomial identity behind an isogeny given by `x ↦ xNum/xDen`, `y ↦ y·yNum/yDen`, evaluated pointwise:
+    `(x³ + a'x + b')·yNum²·xDen³ = yDen²·(xNum³ + a·xNum·xDen² + b·xDen³)` -/
+def IsoIdentity (iso : Iso F) (a' b' a b : F) : Prop :=
+  ∀ x : F,
+    (x * x * x + a' * x + b') * (Rfc.evalPoly iso.yNum x) ^ 2 * (Rfc.evalPoly iso.xDen x) ^ 3 =
+      (Rfc.evalPoly iso.yDen x) ^ 2 *
+        ((Rfc.evalPoly iso.xNum x) ^ 3 + a * Rfc.evalPoly iso.xNum x * (Rfc.evalPoly iso.xDen x) ^ 2 +
+          b * (Rfc.evalPoly iso.xDen x) ^ 3)
+
+theorem isoOnCurve_of_identity {iso : Iso F} {a' b' a b : F} (h : IsoIdentity iso a' b' a b) :
+    IsoOnCurve iso a' b' a b := by
+  intro x y hy x2 y2 hm
+  have hid := h x
+  unfold Rfc.isoMap at hm
+  simp only at hm
+  split at hm
+  · cases hm
+  · rename_i hne
+    rw [not_or] at hne
+    obtain ⟨hxd, hyd⟩ := hne
+    injection hm with hm
+    injection hm with h1 h2
+    subst h1 h2
+    generalize Rfc.evalPoly iso.xNum x = xn at *
+    generalize Rfc.evalPoly iso.xDen x = xd at *
+    generalize Rfc.evalPoly iso.yNum x = yn at *
+    generalize Rfc.evalPoly iso.yDen x = yd at *
+    field_simp
+    linear_combination (yn ^ 2 * xd ^ 3) * hy + hid
+
+theorem isoMap_onCurve {iso : Iso F} {a' b' a b : F} (h : IsoOnCurve iso a' b' a b) (x y : F)
+    (hy : y * y = x * x * x + a' * x + b') : swOnCurve a b (Rfc.isoMap iso (x, y)) = true := by
+  cases hm : Rfc.isoMap iso (x, y) with
+  | none => rfl
+  | some q =>
+    obtain ⟨x2, y2⟩ := q
+    simp only [swOnCurve, beq_iff_eq]
+    exact h x y hy x2 y2 hm
+
+/-- WB: for every `u` no panic; the result is `iso_map` of the SWU point, and lies on `E` -/
+theorem wbMap_ok (hX : FieldXSound X) (hN : NonsqMul F) {a' b' ζ : F}
+    (hp : Rfc.sswuParamsOk X a' b' ζ = true) (iso : Iso F) (u : F) :
+    ∃ q, swuMap X a' b' ζ u = .ok q ∧ wbMap X a' b' ζ iso u = .ok (Rfc.isoMap iso q) ∧
+      ∀ a b, IsoOnCurve iso a' b' a b → swOnCurve a b (Rfc.isoMap iso q) = true := by
+  obtain ⟨x, y, h1, h2, _⟩ := swuMap_ok hX hN hp u
+  refine ⟨(x, y), h1, ?_, fun a b hi => isoMap_onCurve hi x y h2⟩
+  unfold wbMap
+  rw [h1]
+  exact isoApply_eq iso x y
+
+theorem wbMap_eq_rfc (hX : FieldXSound X) (hP : ParitySound X) (hN : NonsqMul F) {a' b' ζ : F}
+    (hp : Rfc.sswuParamsOk X a' b' ζ = true) (iso : Iso F) (u : F)
+    (hgx : Rfc.sswuGx1 a' b' ζ u ≠ 0) :
+    wbMap X a' b' ζ iso u = .ok (Rfc.isoMap iso (Rfc.sswu X a' b' ζ u)) := by
+  unfold wbMap
+  rw [swuMap_eq_rfc hX hP hN hp u hgx]
+  exact isoApply_eq iso _ _
+end wb
+
+/-! ## 5. Elligator 2 -/
+
+section ell
+variable {F : Type} [Field F] [DecidableEq F] {X : FieldX F}
+
+/-- the Montgomery-form polynomial `x³ + (J/K)x² + x/K²` -/
+def gM (J K x : F) : F := x * x * x + (J / K) * (x * x) + x / (K * K)
+
+/-- `x1` of steps 1–2 of RFC 9380 §6.7.1 -/
+def ellX1 (J K Z u : F) : F :=
+  let x1 := -(J / K) * Rfc.inv0 (1 + Z * (u * u))
+  if x1 = 0 then -(J / K) else x1
+
+/-- the RFC's map, `let`s unfolded -/
+theorem elligator2_eval (J K Z u : F) :
+    Rfc.elligator2 X J K Z u =
+      (let x1 := ellX1 J K Z u
+       let x2 := -x1 - J / K
+       let xy : F × F :=
+         if Rfc.isSquare X (gM J K x1) then
+           (x1, if Rfc.sgn0F X (Rfc.sqrtOr0 X (gM J K x1)) == 1 then Rfc.sqrtOr0 X (gM J K x1)
+                else -Rfc.sqrtOr0 X (gM J K x1))
+         else
+           (x2, if Rfc.sgn0F X (Rfc.sqrtOr0 X (gM J K x2)) == 0 then Rfc.sqrtOr0 X (gM J K x2)
+                else -Rfc.sqrtOr0 X (gM J K x2))
+       (xy.1 * K, xy.2 * K)) := rfl
+
+/-- the model's `x1` is the RFC's -/
+theorem ell_model_x1 {J K : F} (Z u : F) :
+    -(J / K) / (if 1 + Z * (u * u) = 0 then 1 else 1 + Z * (u * u)) = ellX1 J K Z u := by
+  unfold ellX1 Rfc.inv0
+  by_cases hd : 1 + Z * (u * u) = 0
+  · simp [hd]
+  · simp only [if_neg hd]
+    by_cases hj : -(J / K) * (1 + Z * (u * u))⁻¹ = 0
+    · rw [if_pos hj, div_eq_mul_inv, hj]
+      rcases mul_eq_zero.1 hj with h | h
+      · exact h.symm
+      · exact absurd (inv_eq_zero.1 h) hd
+    · rw [if_neg hj, div_eq_mul_inv]
+
+omit [Field F] [DecidableEq F] in
+theorem sgn0F_eq_one (y : F) : (Rfc.sgn0F X y == 1) = parity X y := by
+  unfold Rfc.sgn0F parity
+  rw [sgn0_eq]; cases parityCoords (X.coords y) <;> rfl
+
+omit [Field F] [DecidableEq F] in
+theorem sgn0F_eq_zero (y : F) : (Rfc.sgn0F X y == 0) = !parity X y := by
+  unfold Rfc.sgn0F parity
+  rw [sgn0_eq]; cases parityCoords (X.coords y) <;> rfl
+
+/-- value of the model, all `let`s unfolded (the Montgomery → Edwards part is `Rfc.montToEdwards`) -/
+theorem ell2Map_eval {J K jOnK ksqInv : F} (hK : K ≠ 0) (hks : ksqInv * (K * K) = 1) (hj : jOnK * K = J)
+    (Z u : F) :
+    ell2Map X K jOnK ksqInv Z u =
+      (let x1 := ellX1 J K Z u
+       let x2 := -x1 - J / K
+       match (if X.isQR (gM J K x1) then (x1, X.sqrt (gM J K x1), true)
+              else (x2, X.sqrt (gM J K x2), false) : F × Option F × Bool) with
+       | (_, none, _) => .panic
+       | (x, some y0, s) =>
+         .ok (Rfc.montToEdwards (x * K, (if parity X y0 != s then -y0 else y0) * K))) := by
+  have hjk : jOnK = J / K := by rw [← hj]; field_simp
+  have hki : ksqInv = 1 / (K * K) := by
+    have : K * K ≠ 0 := mul_ne_zero hK hK
+    rw [eq_div_iff this]; exact hks
+  have hden : (if 1 + Z * (u * u) = 0 then (1 : F) else 1 + Z * (u * u)) ≠ 0 := by
+    by_cases h : 1 + Z * (u * u) = 0
+    · simp [h]
+    · simp [h]
+  have hg : ∀ x : F, x * x * x + J / K * (x * x) + x * (1 / (K * K)) = gM J K x := by
+    intro x; unfold gM; ring
+  subst hjk hki
+  simp only [ell2Map, ell2MapB, divP, if_neg hden, obind, ell_model_x1, hg]
+  cases hq : X.isQR (gM J K (ellX1 J K Z u))
+  · simp only [Bool.false_eq_true, if_false]
+    cases X.sqrt (gM J K (-ellX1 J K Z u - J / K)) with
+    | none => rfl
+    | some y0 =>
+      simp only [Rfc.montToEdwards]
+      congr 1
+      generalize (-ellX1 J K Z u - J / K) * K = s
+      generalize (if (parity X y0 != false) = true then -y0 else y0) * K = t
+      by_cases ht : t = 0
+      · simp [ht]
+      · by_cases hs : s + 1 = 0
+        · simp [hs]
+        · have : (s + 1) * t ≠ 0 := mul_ne_zero hs ht
+          simp only [if_neg this, ht, hs, or_self, if_false]
+          refine Prod.ext ?_ ?_ <;> (simp only; field_simp)
+  · simp only [if_true]
+    cases X.sqrt (gM J K (ellX1 J K Z u)) with
+    | none => rfl
+    | some y0 =>
+      simp only [Rfc.montToEdwards]
+      congr 1
+      generalize (ellX1 J K Z u) * K = s
+      generalize (if (parity X y0 != true) = true then -y0 else y0) * K = t
+      by_cases ht : t = 0
+      · simp [ht]
+      · by_cases hs : s + 1 = 0
+        · simp [hs]
+        · have : (s + 1) * t ≠ 0 := mul_ne_zero hs ht
+          simp only [if_neg this, ht, hs, or_self, if_false]
+          refine Prod.ext ?_ ?_ <;> (simp only; field_simp)
+end ell
+
+section ell2
+variable {F : Type} [Field F] [DecidableEq F] {X : FieldX F}
+
+theorem ellX1_eq (J K Z u : F) :
+    ellX1 J K Z u = -(J / K) / (if 1 + Z * (u * u) = 0 then 1 else 1 + Z * (u * u)) :=
+  (ell_model_x1 Z u).symm
+
+/-- `g(x2) = Z u² g(x1)` (and `x2 = 0` in the exceptional case `1 + Z u² = 0`) -/
+theorem ell_gx2 {J K : F} (hK : K ≠ 0) (Z u : F) :
+    gM J K (-ellX1 J K Z u - J / K) =
+      (if 1 + Z * (u * u) = 0 then 0 else Z * (u * u)) * gM J K (ellX1 J K Z u) := by
+  rw [ellX1_eq]
+  by_cases hd : 1 + Z * (u * u) = 0
+  · simp only [if_pos hd]; unfold gM; ring
+  · simp only [if_neg hd]
+    generalize Z * (u * u) = w at hd ⊢
+    unfold gM
+    field_simp
+    ring
+
+/-- `gx1 = 0` forces `J = 0` -/
+theorem ell_gx1_zero {J K Z : F} (hK : K ≠ 0) (hZ : ¬ IsSquare Z) (u : F)
+    (h : gM J K (ellX1 J K Z u) = 0) : J = 0 := by
+  by_contra hJ
+  rw [ellX1_eq] at h
+  by_cases hd : 1 + Z * (u * u) = 0
+  · simp only [if_pos hd] at h
+    unfold gM at h
+    field_simp at h
+    apply hJ
+    have : J * 1 = 0 := by linear_combination (-1 : F) * h
+    simpa using this
+  · simp only [if_neg hd] at h
+    generalize hw' : Z * (u * u) = w at hd h
+    unfold gM at h
+    field_simp at h
+    have h2 : (1 + w) * (1 + w) = J * J * w := by
+      have : J * ((1 + w) * (1 + w) - J * J * w) = 0 := by linear_combination (-1 : F) * h
+      rcases mul_eq_zero.1 this with h0 | h0
+      · exact absurd h0 hJ
+      · linear_combination h0
+    have hu : u ≠ 0 := by
+      rintro rfl
+      apply hd
+      have : (1 + w) * (1 + w) = 0 := by rw [h2, ← hw']; ring
+      exact mul_self_eq_zero.1 this
+    apply hZ
+    refine ⟨(1 + w) / (J * u), ?_⟩
+    field_simp
+    linear_combination (-1 : F) * h2 + (J * J) * hw'
+
+theorem ellX1_J0 (K Z u : F) : ellX1 0 K Z u = 0 := by
+  rw [ellX1_eq]; simp
+
+/-- Appendix D.1: the image of a point of `K t² = s³ + J s² + s` lies on `a v² + w² = 1 + d v² w²` -/
+theorem montToEdwards_onCurve {J K : F} (hK : K ≠ 0) (s t : F)
+    (hM : K * (t * t) = s * s * s + J * (s * s) + s) :
+    (J + 2) / K * (Rfc.montToEdwards (s, t)).1 * (Rfc.montToEdwards (s, t)).1 +
+        (Rfc.montToEdwards (s, t)).2 * (Rfc.montToEdwards (s, t)).2 =
+      1 + (J - 2) / K * (Rfc.montToEdwards (s, t)).1 * (Rfc.montToEdwards (s, t)).1 *
+        (Rfc.montToEdwards (s, t)).2 * (Rfc.montToEdwards (s, t)).2 := by
+  unfold Rfc.montToEdwards
+  simp only
+  by_cases h : t = 0 ∨ s + 1 = 0
+  · rw [if_pos h]; simp
+  · rw [if_neg h]
+    rw [not_or] at h
+    obtain ⟨ht, hs⟩ := h
+    simp only
+    field_simp
+    linear_combination (-4 * s) * hM
+end ell2
+
+section ell3
+variable {F : Type} [Field F] [DecidableEq F] {X : FieldX F}
+
+omit [DecidableEq F] in
+theorem sqrt_zero (hX : FieldXSound X) : ∃ r, X.sqrt 0 = some r ∧ r = 0 := by
+  obtain ⟨r, hr⟩ := hX.sqrt_complete 0 ⟨0, by simp⟩
+  exact ⟨r, hr, mul_self_eq_zero.1 (hX.sqrt_sound _ _ hr)⟩
+
+/-- Elligator 2: the model never panics and agrees with the RFC; the Montgomery point is `(x K, y K)`
+    with `y² = g(x)` -/
+theorem ell2Map_char (hX : FieldXSound X) (hN : NonsqMul F) {J K Z jOnK ksqInv : F}
+    (hZ : ¬ IsSquare Z) (hK : K ≠ 0) (hks : ksqInv * (K * K) = 1) (hj : jOnK * K = J) (u : F) :
+    ∃ x y, ell2Map X K jOnK ksqInv Z u = .ok (Rfc.montToEdwards (x * K, y * K)) ∧
+      Rfc.elligator2 X J K Z u = (x * K, y * K) ∧ y * y = gM J K x ∧
+      (J ≠ 0 → gM J K (ellX1 J K Z u) ≠ 0) := by
+  have hunreach : J ≠ 0 → gM J K (ellX1 J K Z u) ≠ 0 := fun hJ h => hJ (ell_gx1_zero hK hZ u h)
+  rw [ell2Map_eval hK hks hj, elligator2_eval]
+  simp only [sgn0F_eq_one, sgn0F_eq_zero, Rfc.isSquare]
+  cases hq : X.isQR (gM J K (ellX1 J K Z u))
+  · simp only [Bool.false_eq_true, if_false, Bool.or_false, decide_eq_true_eq]
+    by_cases h0 : gM J K (ellX1 J K Z u) = 0
+    · -- only for J = 0: everything is 0
+      have hJ : J = 0 := ell_gx1_zero hK hZ u h0
+      subst hJ
+      obtain ⟨r, hr, hr0⟩ := sqrt_zero hX
+      subst hr0
+      have hg0 : gM (0 : F) K 0 = 0 := by simp [gM]
+      simp only [ellX1_J0, zero_div, sub_zero, neg_zero, hg0, hr, Rfc.sqrtOr0, Option.getD_some,
+        ite_self]
+      exact ⟨0, 0, rfl, rfl, by simp [gM], fun h => absurd rfl h⟩
+    · have hns : ¬ IsSquare (gM J K (ellX1 J K Z u)) := ((not_isQR_iff hX _).1 hq).resolve_left h0
+      have hsq : IsSquare (gM J K (-ellX1 J K Z u - J / K)) := by
+        rw [ell_gx2 hK]
+        by_cases hd : 1 + Z * (u * u) = 0
+        · rw [if_pos hd, zero_mul]; exact ⟨0, by simp⟩
+        · rw [if_neg hd]
+          obtain ⟨s, hs⟩ := hN _ _ hZ hns
+          exact ⟨u * s, by linear_combination (u * u) * hs⟩
+      obtain ⟨y0, hy0⟩ := hX.sqrt_complete _ hsq
+      have hyy := hX.sqrt_sound _ _ hy0
+      simp only [hy0, if_neg h0, Rfc.sqrtOr0, Option.getD_some]
+      cases hpar : parity X y0
+      · refine ⟨_, y0, ?_, ?_, hyy, hunreach⟩ <;> simp
+      · refine ⟨_, -y0, ?_, ?_, by rw [← hyy]; ring, hunreach⟩ <;> simp
+  · obtain ⟨hne, hsq⟩ := (hX.isQR_iff _).1 hq
+    obtain ⟨y0, hy0⟩ := hX.sqrt_complete _ hsq
+    have hyy := hX.sqrt_sound _ _ hy0
+    simp only [if_true, Bool.or_true, hy0, Rfc.sqrtOr0, Option.getD_some]
+    cases hpar : parity X y0
+    · refine ⟨_, -y0, ?_, ?_, by rw [← hyy]; ring, hunreach⟩ <;> simp
+    · refine ⟨_, y0, ?_, ?_, hyy, hunreach⟩ <;> simp
+
+theorem ell2Map_eq_rfc (hX : FieldXSound X) (hN : NonsqMul F) {J K Z jOnK ksqInv : F}
+    (hZ : ¬ IsSquare Z) (hK : K ≠ 0) (hks : ksqInv * (K * K) = 1) (hj : jOnK * K = J) (u : F) :
+    ell2Map X K jOnK ksqInv Z u = .ok (Rfc.elligator2Edwards X J K Z u) := by
+  obtain ⟨x, y, h1, h2, _, _⟩ := ell2Map_char hX hN hZ hK hks hj u
+  rw [h1, Rfc.elligator2Edwards, h2]
+
+theorem ell2Map_onCurve (hX : FieldXSound X) (hN : NonsqMul F) {J K Z jOnK ksqInv : F}
+    (hZ : ¬ IsSquare Z) (hK : K ≠ 0) (hks : ksqInv * (K * K) = 1) (hj : jOnK * K = J) (u : F) :
+    ∃ v w, ell2Map X K jOnK ksqInv Z u = .ok (v, w) ∧
+      (J + 2) / K * v * v + w * w = 1 + (J - 2) / K * v * v * w * w := by
+  obtain ⟨x, y, h1, _, h3, _⟩ := ell2Map_char hX hN hZ hK hks hj u
+  refine ⟨_, _, h1, montToEdwards_onCurve hK _ _ ?_⟩
+  unfold gM at h3
+  field_simp at h3
+  linear_combination K * h3
+end ell3
+
+section swu5
+variable {F : Type} [Field F] [DecidableEq F]
+
+/-- away from the exceptional case and from `gx1 = 0`, exactly one of `gx1`, `gx2` is a square -/
+theorem swu_exactly_one (hN : NonsqMul F) {a b ζ : F} (ha : a ≠ 0) (hζ : ¬ IsSquare ζ) (u : F)
+    (hta : ζ * ζ * (u * u * (u * u)) + ζ * (u * u) ≠ 0) (hgx : g a b (rfcX1 a b ζ u) ≠ 0) :
+    IsSquare (g a b (ζ * (u * u) * rfcX1 a b ζ u)) ↔ ¬ IsSquare (g a b (rfcX1 a b ζ u)) := by
+  rw [g_x2_eq ha u hta]
+  have hz0 : ζ ≠ 0 := by rintro rfl; exact hζ ⟨0, by simp⟩
+  have hu : u ≠ 0 := by rintro rfl; apply hta; ring
+  constructor
+  · rintro ⟨r, hr⟩ ⟨s, hs⟩
+    have hs0 : s ≠ 0 := by rintro rfl; apply hgx; rw [hs]; ring
+    apply hζ
+    refine ⟨r / (ζ * (u * u * u) * s), ?_⟩
+    field_simp
+    rw [hs] at hr
+    linear_combination hr
+  · intro h
+    obtain ⟨s, hs⟩ := hN _ _ hζ h
+    exact ⟨ζ * (u * u * u) * s, by linear_combination (ζ * ζ * (u * u * u) * (u * u * u)) * hs⟩
+end swu5
+
+section extra
+variable {F : Type} [Field F] [DecidableEq F] {X : FieldX F}
+
+/-- the identity is returned exactly at the poles -/
+theorem isoApply_none_iff (iso : Iso F) (x y : F) :
+    isoApply iso (some (x, y)) = .ok none ↔
+      (polyEval (polyOfSlice iso.xDen) x = 0 ∨ polyEval (polyOfSlice iso.yDen) x = 0) := by
+  rw [isoApply_eq, polyEval_polyOfSlice, polyEval_polyOfSlice]
+  unfold Rfc.isoMap
+  simp only
+  split
+  · rename_i h; simp [h]
+  · rename_i h; simp [h]
+
+/-- `gx1 = 0` is unreachable in the model's Elligator 2 when `J ≠ 0` (stated on the model's own expressions) -/
+theorem ell_model_gx1_ne_zero {J K Z jOnK ksqInv : F} (hZ : ¬ IsSquare Z) (hK : K ≠ 0)
+    (hks : ksqInv * (K * K) = 1) (hj : jOnK * K = J) (hJ : J ≠ 0) (u : F) :
+    let x1 := -jOnK / (if 1 + Z * (u * u) = 0 then 1 else 1 + Z * (u * u))
+    x1 * x1 * x1 + jOnK * (x1 * x1) + x1 * ksqInv ≠ 0 := by
+  have hjk : jOnK = J / K := by rw [← hj]; field_simp
+  have hki : ksqInv = 1 / (K * K) := by
+    have : K * K ≠ 0 := mul_ne_zero hK hK
+    rw [eq_div_iff this]; exact hks
+  subst hjk hki
+  intro x1 h
+  apply hJ
+  apply ell_gx1_zero hK hZ u
+  rw [← ell_model_x1]
+  show gM J K x1 = 0
+  unfold gM
+  linear_combination h
+end extra
+
 end Ark.H2C.P
